@@ -73,6 +73,7 @@ func runC02(w *eng.W) {
 		}
 		return b
 	}
+	lookaheadForms(w, "lookahead-forms", do)
 	tokenSeqs(w, "full-seq", SigmaFull, pick(3, 4), do)
 	infixTriples(w, "infix-triples", do)
 	listForms(w, "list-forms", do)
